@@ -13,7 +13,9 @@ EXPLANATION = (
     "that digest in the final block; log append and batch merge add the batch setsum; (C04.5) in GC every input entry is "
     "either rewritten or added to the discard setsum handed to compaction_finish; (C04.6) the verifier's balance gates "
     "exist, fail closed and dominate its Ok exit; (C04.7) the flush thread compares the sealed SST's setsum with the "
-    "log's before ingesting.  GUARDED/ORDER/ORIGIN + equality-gate table over resolved MIR.")
+    "log's before ingesting; (C04.8) every file a transaction adds is opened and its entries accumulated; (C04.9) the replay of a garbage "
+    "collection accepts only once the replayed collector is exhausted (a key the policy retains that is in no output is a loss, also behind "
+    "the last output entry).  GUARDED/ORDER/ORIGIN + equality-gate table over resolved MIR.")
 NOT_DECIDED = ("that the recorded sums are the right numbers for every history, and the rejection half (every single-entry "
                "tamper is caught): both are arithmetic over contents")
 ASSUMPTIONS = ["setsum::Setsum's operators implement the multiset-hash algebra (C14)"]
@@ -32,6 +34,7 @@ def rules(ctx):
     c046(ctx)
     c047(ctx)
     c048(ctx)
+    c049(ctx)
     from . import C13
     C13.c135(ctx)
 
@@ -437,3 +440,39 @@ def c048(ctx):
                   "every added file is opened and its entries accumulated while the transaction is verified",
                   "the setsum of an added file is taken from its name in the manifest only (files are opened just to replay a garbage collection, which "
                   "compares keys, not values): an output rewritten with one entry altered, dropped or duplicated under the same name is accepted", pt=h)
+
+
+def c049(ctx):
+    R = "C04.9"
+    ctx.declare(R, "the GC replay accepts only when the replayed collector has nothing left to retain: a retained key that is in no output is data loss, "
+                   "wherever it sorts")
+    f = ctx.fn(R, VER + "LsmVerifier::verify_gc")
+    if not f:
+        return
+    # locals holding the collector's answer: destinations of GarbageCollector::next (through `?`)
+    answers = set()
+    for b, t in f.calls():
+        if re.search(r"sst::gc::GarbageCollector::next$", callee_skey(t) or ""):
+            answers.add(t["dest"]["l"])
+    ctx.floor(R, "calls of the replayed collector's next()", len(answers), 2)
+
+    def from_collector(local):
+        for s_ in P.origins(f, {"k": "copy", "pl": {"l": local, "p": []}}):
+            if s_["k"] == "call" and re.search(r"sst::gc::GarbageCollector::next$", s_["callee"]):
+                return True
+        return False
+    oks = P.ok_points(f)
+    ctx.floor(R, "Ok exits of verify_gc", len(oks), 1)
+    for pt in oks:
+        exhausted = False
+        for bb, lab in P.guards_of(f, pt):
+            d = f.blocks[bb].term["discr"]
+            if d.get("k") not in ("copy", "move"):
+                continue
+            for (_p, kind, p_) in P.defs(f).of(d["pl"]["l"]):
+                if kind == "assign" and p_["rv"]["r"] == "discr" and f.locals[p_["rv"]["pl"]["l"]].startswith("core::option::Option<") and from_collector(p_["rv"]["pl"]["l"]) and lab == "sw:0":
+                    exhausted = True
+        ctx.check(R, f, "collector-exhausted", exhausted, "Ok is returned only on the None edge of the collector's next answer",
+                  "verify_gc can accept while the replayed collector still has a key to retain: once the outputs are exhausted every remaining input "
+                  "entry is booked as discard without asking the policy, so a collection that lost the last keys it had to keep (and recorded them as "
+                  "discard) is accepted", pt=pt)
